@@ -37,6 +37,7 @@ const (
 	opRegisterTag
 	opGetAux
 	opGetGhost
+	opRefreshBadStart // valid configuration whose START phase fails (an asynchronous logger refuses its buffer size) after other plugins may have been started
 	nOps
 )
 
@@ -48,7 +49,7 @@ const (
 	nOpsExt
 )
 
-var opNames = []string{"Refresh(A)", "Refresh(B)", "Refresh(bad-early)", "Refresh(bad-ref)", "Refresh(bad-prop)", "Destroy", "log", "log-disabled", "write-handle", "RegisterTag", "GetLogger(aux)", "GetLogger(ghost)",
+var opNames = []string{"Refresh(A)", "Refresh(B)", "Refresh(bad-early)", "Refresh(bad-ref)", "Refresh(bad-prop)", "Destroy", "log", "log-disabled", "write-handle", "RegisterTag", "GetLogger(aux)", "GetLogger(ghost)", "Refresh(bad-start)",
 	"Refresh(C)", "log-all-levels", "RegisterTag(invalid)"}
 
 var c16FilesUsed bool
@@ -201,7 +202,7 @@ func c16Run(c c16Case, afterOps func(model string)) (string, []Violation, int) {
 		case badRef:
 			m.guard = true
 			if err == nil {
-				fail("bad-config-accepted", step+": dangling appender reference was accepted")
+				fail("bad-config-accepted", step+": a configuration that cannot be built / started (dangling appender reference, refused buffer size) was accepted")
 			}
 			m.mode = "failedNone"
 		case badProp || m.ghost:
@@ -242,6 +243,13 @@ func c16Run(c c16Case, afterOps func(model string)) (string, []Violation, int) {
 			cf := c16ConfA()
 			cf["enableCaller"] = "maybe"
 			refresh(step, cf, "A", false, false, true)
+		case opRefreshBadStart:
+			// fails while starting: nothing has been bound yet, so this is the badRef case of the model (guard set,
+			// everything still goes to the built-in logger) - whatever had already been started must not make the
+			// Destroy that follows hang
+			cf := c16ConfB()
+			cf["logger.aux.bufferSize"] = "50"
+			refresh(step, cf, "B", false, true, false)
 		case opRefreshC:
 			c16FilesUsed = true
 			os.MkdirAll(c16Dir(), 0755)
@@ -461,7 +469,7 @@ func init() {
 		seen := map[string]bool{}
 		type node struct{ ops, seeds []int }
 		nSeeds := func(o int) int {
-			if o <= opRefreshBadProp || o == opRefreshC {
+			if o <= opRefreshBadProp || o == opRefreshC || o == opRefreshBadStart {
 				return 6 // the five Refresh operations: every iteration order of maps of <= 3 keys
 			}
 			return 1
@@ -591,7 +599,7 @@ func init() {
 }
 
 func init() {
-	definePart("C16", "c16/lifecycle-sequences", "qt", "all operation sequences of length <= 5 (thorough 6) over 12 operations + fixed probe, against the lifecycle model",
+	definePart("C16", "c16/lifecycle-sequences", "qt", "all operation sequences of length <= 5 (thorough 6) over 13 operations + fixed probe, against the lifecycle model",
 		func(tier string, yield func(c16Case)) {
 			maxN := 5
 			if tier == "thorough" {
